@@ -1710,6 +1710,13 @@ def _next(it, a, k):
     v = a[0]
     if hasattr(v, 'pyvc_next'):
         return v.pyvc_next(it)
+    if isinstance(v, list) and getattr(it, 'eager_generators', True):
+        # generator expressions are evaluated eagerly to lists by this interpreter: next(<genexp>[, default]) takes the first element
+        if v:
+            return v[0]
+        if len(a) > 1:
+            return a[1]
+        it.throw('StopIteration')
     raise Unsupported(f'next({v!r})')
 
 
